@@ -12,12 +12,12 @@ RULE = ("pairs/triples of signed-cost vectors: exhaustive grids {0,1,2}^m x mark
         "injected ties, epsilon lists, plus every comparison made inside real algorithm runs; a pair is "
         "non-trivial when it is comparable (one dominates) or has at least one tied coordinate; distinct = "
         "distinct (comparator, p, q)")
-ASSUMPTIONS = ["markers of equal magnitude and opposite sign are not generated (statement is silent)",
+ASSUMPTIONS = ["violation markers are compared by magnitude (-v and +v are equally infeasible; the objectives then decide)",
                "epsilon agreement demanded only on pairs whose coordinates are equal or differ by >1e-9 relative"]
 SHARDS = {"quick": 1, "thorough": 16}
 WATCHDOG = {"quick": 900, "thorough": 3000}
 
-MARK = [0, False, True, 1, 0.5, 2]
+MARK = [0, False, True, 1, 0.5, 2, -1.0, -0.5]
 
 
 def _ops():
@@ -297,8 +297,6 @@ def run_case(ctx, name, params):
             ctx.count("insitu_runs_aborted")
         for kind, p_, q_, v, eps in seen:
             if len(p_) < 2 or len(p_) != len(q_):
-                continue
-            if oracles.marker(p_[-1]) == oracles.marker(q_[-1]) and p_[-1] != q_[-1] and bool(p_[-1]) != bool(q_[-1]):
                 continue
             if kind == "P":
                 ctx.count("insitu_pareto_verdicts")
